@@ -1,7 +1,9 @@
 ------------------------------ MODULE MetricsTrace ------------------------------
 (* code -> spec.                                                                         *)
-(* kind "corr":  events acc {k, i, j, co} in the order the code evaluates cells (co =     *)
-(*               value of the draw scaled by 10^6), then result {mean, mini, maxi, ...}.  *)
+(* kind "corr":  events acc {k, i, j, co} (co = the value the code itself gives to cell   *)
+(*               (i, j) in draw k, read off a one-draw run from the generator state of    *)
+(*               draw k, scaled by 10^6; absent when draws cannot be observed that way:   *)
+(*               field observable), then result {mean, mini, maxi, ...}.                  *)
 (*               Each acc event must be the specification's next Acc step; the returned   *)
 (*               matrices must be the specification's accumulators (one unit of slack per *)
 (*               draw for rounding to the 10^-6 grid).                                    *)
@@ -31,11 +33,11 @@ BadMax  == {c \in Cells : Mat(Ev.maxi, c[1], c[2]) # maxi[c]}
 BadRange == {c \in Cells : Mat(Ev.mean, c[1], c[2]) < 0 \/ Mat(Ev.mean, c[1], c[2]) > Scale}
 BadOrder == {c \in Cells : ~(Mat(Ev.mini, c[1], c[2]) <= Mat(Ev.mean, c[1], c[2]) + 1 /\ Mat(Ev.mean, c[1], c[2]) <= Mat(Ev.maxi, c[1], c[2]) + 1)}
 TResult == /\ T.kind = "corr" /\ l = NEv /\ Ev.a = "result"
-           /\ IF pc # "done" THEN Rejected(T.id, l, [want |-> <<k, i, j>>, got |-> "result"]) /\ l' = 0
+           /\ IF T.observable /\ pc # "done" THEN Rejected(T.id, l, [want |-> <<k, i, j>>, got |-> "result"]) /\ l' = 0
               ELSE /\ Require(Ev.rows = D /\ Ev.cols = D, T.id, "Square", l, [rows |-> Ev.rows, cols |-> Ev.cols])
-                   /\ Require(BadMean = {}, T.id, "MeanIsSumOverDraws", l, [cells |-> BadMean])
+                   /\ Require(~T.observable \/ BadMean = {}, T.id, "MeanIsSumOverDraws", l, [cells |-> BadMean])
                    /\ Require(BadRange = {}, T.id, "Range", l, [cells |-> BadRange])
-                   /\ Require(T.minmax => (BadMin = {} /\ BadMax = {}), T.id, "MinMaxAreExtremes", l, [mini |-> BadMin, maxi |-> BadMax])
+                   /\ Require((T.minmax /\ T.observable) => (BadMin = {} /\ BadMax = {}), T.id, "MinMaxAreExtremes", l, [mini |-> BadMin, maxi |-> BadMax])
                    /\ Require(T.minmax => BadOrder = {}, T.id, "MinMeanMax", l, [cells |-> BadOrder])
                    /\ Require(Ev.labels_kept, T.id, "LabelsKept", l, <<>>)
                    /\ Require(Ev.input_untouched, T.id, "InputUntouched", l, <<>>)
